@@ -1,5 +1,6 @@
 //! C16, C17, C18 — the simulator against the integration contract (see simmon.rs).
 
+use crate::spec::{Fx, MachineSpec, StateSpec};
 use proptest::prelude::*;
 
 use crate::props::c15::sample_of;
@@ -55,7 +56,37 @@ fn contract_case_full(bias: &'static str, zero: bool, grid: bool, many: bool) ->
     (
         tr,
         dl,
-        if many { proptest::collection::vec(crate::gen::machine(&mp), 65..=90).boxed() } else { sim_machines(3, &mp) },
+        if many {
+            // half of the cases: every machine active; the other half: a few active machines among idle
+            // ones, two of them 64 positions apart (so that they share a bit in any 64-bit mask)
+            prop_oneof![
+                proptest::collection::vec(crate::gen::machine(&mp), 65..=90),
+                (proptest::collection::vec(crate::gen::machine(&mp), 2..=4), 65usize..=130, any::<u16>(), any::<u16>()).prop_map(|(active, n, a, b)| {
+                    let idle = MachineSpec {
+                        allowed_padding_packets: 0,
+                        max_padding_frac: Fx(0.0),
+                        allowed_blocked_microsec: 0,
+                        max_blocking_frac: Fx(0.0),
+                        states: vec![StateSpec::default()],
+                    };
+                    let mut ms = vec![idle; n];
+                    let i = a as usize % (n - 64);
+                    let mut it = active.into_iter();
+                    ms[i] = it.next().unwrap();
+                    ms[i + 64] = it.next().unwrap();
+                    for (k, m) in it.enumerate() {
+                        let pos = (b as usize + 31 * k) % n;
+                        if pos != i && pos != i + 64 {
+                            ms[pos] = m;
+                        }
+                    }
+                    ms
+                }),
+            ]
+            .boxed()
+        } else {
+            sim_machines(3, &mp)
+        },
         sim_machines(if many { 1 } else { 3 }, &mp),
         sim_fracs(),
         seed(),
